@@ -131,7 +131,7 @@ def item_check(si, mult, named, with_units, two, x, s, arm):
 def ob_item(si: int, mult: int, with_units: bool, x: int, s: str, arm: bool) -> int:
     """
     pre: 0 <= si < N_SITES and si % SHARD_N == SHARD_I
-    pre: 0 <= mult <= 3
+    pre: 0 <= mult <= 4
     pre: len(s) <= 2 and s.isascii()
     post: _ == 0
     """
@@ -141,7 +141,7 @@ def ob_item(si: int, mult: int, with_units: bool, x: int, s: str, arm: bool) -> 
 def reach_item(si: int, mult: int, with_units: bool, x: int, s: str, arm: bool) -> int:
     """
     pre: 0 <= si < N_SITES and si % SHARD_N == SHARD_I
-    pre: 0 <= mult <= 3
+    pre: 0 <= mult <= 4
     pre: len(s) <= 2 and s.isascii()
     post: _ != 0
     """
